@@ -33,11 +33,14 @@ for p in seeded/harmless/*.diff; do
   [ -f "$p" ] || continue
   [ -z "${ONLY:-}" ] || continue
   checks=$(sed -n 's/^# checks: //p' "$p")
+  untied=$(sed -n 's/^# untied: \([C0-9 ]*\).*/\1/p' "$p")
   git -C "$REPO" apply "$PWD/$p" || { echo "$(basename $p): cannot apply"; bad=1; continue; }
   res=""
   for c in $checks; do
     out=$(timeout 1500 ./check "$c" --tier quick 2>/dev/null); code=$?
-    if [ $code -eq 0 ] && ! echo "$out" | grep -q "^VIOLATION"; then res="$res $c:quiet"; else res="$res $c:FALSE-ALARM(exit $code)"; bad=1; fi
+    if [ $code -eq 0 ] && ! echo "$out" | grep -q "^VIOLATION"; then res="$res $c:quiet"
+    elif echo " $untied " | grep -q " $c " && [ "$(echo "$out" | grep -c "^VIOLATION")" = "$(echo "$out" | grep -c "^VIOLATION.*no-failing-input-found$")" ]; then res="$res $c:untied(no-failing-input-found)"
+    else res="$res $c:FALSE-ALARM(exit $code)"; bad=1; fi
   done
   git -C "$REPO" checkout -q -- .
   echo "harmless $(basename $p):$res"
